@@ -5,7 +5,7 @@ import logging
 
 from .util import (Source, print_dump, get_marked_atribute, split_pkg,
                    get_marked_name, get_marked_import, get_all_usages, join_pkg,
-                   marked, SOURCE_MARK)
+                   marked, unmark, SOURCE_MARK)
 from .evaluator import EvalCtx
 from .nast import extract_scope
 
@@ -66,8 +66,9 @@ def assist(project, source, position, filename=None, debug=False):
         if flow:
             names = flow.names_at(position)
 
-    # the name under the cursor carries the internal mark: never propose it
-    return prefix, sorted(n for n in names if not marked(n))
+    # the name under the cursor carries the internal mark: propose it as it
+    # is written in the text, never with the mark
+    return prefix, sorted(set(unmark(n) if marked(n) else n for n in names))
 
 
 def _loc(location, filename):
